@@ -251,6 +251,7 @@ def run(ctx):
     rep.floor('Q2', 1)
     rep.floor('Q4', 1)
     rep.floor('Q5', 3)
+    rep.floor('Q6', 2)
 
 
 # ---------------------------------------------------------------- slist
@@ -524,6 +525,77 @@ def queue(ctx):
                     key='%s: missing num_ update' % n)
     # ---- Q3: pool index bounds: ptr_[--cur_] only under cur_ != 0; ptr_[cur_++] only under cur_ < mem_
     q3(ctx, fns, m)
+    q6(ctx, fns, m, numidx)
+
+
+def q6(ctx, fns, m, numidx):
+    """Q6: a positional walk that must reach position idx (a_que_insert, a_que_remove) is entered only under a guard
+    entailing idx < num_, counts from 0 in steps of 1 and compares the count with idx for equality - the reason why the walk
+    cannot come back to the sentinel first (ring length = num_, rule Q5).  This justifies the exclusion used by Q1."""
+    rep = ctx.rep
+    for n in ('a_que_insert', 'a_que_remove'):
+        f = fns.get(n)
+        if f is None:
+            rep.unk('Q6', n, 'anchor vanished')
+            continue
+        ex = ring_exhaust_edges(f)
+        loops = [l for l in f.loops() if any(f.bmap[a] in l[1] for a, b_ in ex)]
+        if not ex or not loops:
+            rep.unk('Q6', n, 'no ring walk found')
+            continue
+        header, body, latches = min(loops, key=lambda l: len(l[1]))
+        params = [pn for pt, pn in f.params]
+        idx = params[1] if len(params) > 1 else None
+        # (a) guard idx < num_ dominating the loop
+        guarded = False
+        for b in f.blocks:
+            t = b.term
+            if t.op != 'br' or len(t.x['labels']) != 2 or t.ops[0].k != 'reg' or not f.dominates(b, header) or b in body:
+                continue
+            d = f.defs.get(t.ops[0].v)
+            if d is None or d.op != 'icmp':
+                continue
+            x, y = d.ops
+            pred = d.x['pred']
+            if pred == 'ugt':
+                x, y, pred = y, x, 'ult'
+            taken = f.bmap[t.x['labels'][0]]
+            if pred == 'uge':     # idx >= num_ -> the false edge is the guard
+                x, y, pred = x, y, 'ult'
+                taken = f.bmap[t.x['labels'][1]]
+            if pred != 'ult' or not (x.k == 'reg' and x.v == idx):
+                continue
+            ld_ = f.defs.get(y.v) if y.k == 'reg' else None
+            g = f.defs.get(ld_.ops[0].v) if ld_ is not None and ld_.op == 'load' and ld_.ops[0].k == 'reg' else None
+            if g is None or g.op != 'gep' or len(g.ops) != 3 or g.ops[2].k != 'int' or g.ops[2].v != numidx:
+                continue
+            other = [f.bmap[l] for l in t.x['labels'] if f.bmap[l] is not taken][0]
+            if (taken is header or f.dominates(taken, header)) and not f.reachable(other, header, avoid=(b,)):
+                guarded = True
+        # (b) counter: phi from 0, +1 per iteration, compared eq with idx inside the loop
+        counted = False
+        for ph in header.instrs:
+            if ph.op != 'phi':
+                continue
+            init = [o for o, lb in zip(ph.ops, ph.x['labels']) if f.bmap[lb] not in body]
+            nxt = [o for o, lb in zip(ph.ops, ph.x['labels']) if f.bmap[lb] in body]
+            if len(init) != 1 or len(nxt) != 1 or init[0].k != 'int' or init[0].v != 0 or nxt[0].k != 'reg':
+                continue
+            dn = f.defs.get(nxt[0].v)
+            if dn is None or dn.op != 'add' or not (dn.ops[0].k == 'reg' and dn.ops[0].v == ph.res and dn.ops[1].k == 'int' and dn.ops[1].v == 1):
+                continue
+            for c in f.instrs():
+                if c.op == 'icmp' and c.x['pred'] in ('eq', 'ne') and c.block in body and \
+                        {(o.k, o.v) for o in c.ops} == {('reg', ph.res), ('reg', idx)}:
+                    counted = True
+        loc = f.loc(header.term)
+        if guarded and counted:
+            rep.ok('Q6', n, 'the walk to position idx runs only under idx < num_, counting from 0 in steps of 1 until the count equals idx', loc=loc)
+        elif not guarded:
+            rep.bad('Q6', n, 'the walk to position idx is not confined to idx < num_: for idx == num_ it returns to the sentinel without reaching '
+                    'position idx (the node is then neither linked nor found although the count changes)', loc=loc, key='%s: positional walk guard' % n)
+        else:
+            rep.bad('Q6', n, 'the walk does not count positions 0,1,2,.. against idx', loc=loc, key='%s: positional walk counter' % n)
 
 
 def ring_exhaust_edges(f):
